@@ -246,6 +246,7 @@ type c20Exec struct {
 	aliasDisp map[string][2]string        // alias source -> (name in the callee, text in the caller) for messages
 	stack     []*types.Func
 	noHelpers bool
+	sym       bool // symbolic loop mode (c20rect.go): loop-carried variables are fresh values, index/slice expressions are values
 }
 
 func c20NewExec(c *Ctx, g *FG, roles map[types.Object]string) *c20Exec {
@@ -395,8 +396,17 @@ func (x *c20Exec) eval(st *c20State, e ast.Expr) *c20Val {
 		if v := x.elemOf(st, t); v != nil {
 			return v
 		}
+		if x.sym {
+			if v := x.symIndex(st, t); v != nil {
+				return v
+			}
+		}
 		v := x.lookup(st, t)
 		return v
+	case *ast.SliceExpr:
+		if x.sym && !t.Slice3 {
+			return x.symSlice(st, t)
+		}
 	case *ast.CallExpr:
 		return x.evalCall(st, t)
 	case *ast.CompositeLit:
@@ -951,6 +961,9 @@ func (x *c20Exec) dfsFrom(b *cfg.Block, from int, st *c20State, at func(*c20Stat
 			if st2.dead {
 				continue
 			}
+			if x.sym {
+				x.havocLoop(st2, s)
+			}
 			x.dfs(s, st2, at, atExit)
 		}
 	}
@@ -1079,12 +1092,12 @@ func runC20(c *Ctx) {
 		"C20.a in resizeImage the destination width and height are, on every non-fit path, the source extents multiplied by one common factor that is the smaller of box/image ratios (reaching definitions, path-feasible)",
 		"C20.b samePlacement returns true only if every non-function field of placement is equal, and false only under a differing field",
 		"C20.c every Draw of an Image implementation writes cells only through SetCell on its own window parameter; raw placements (sixel/kitty payloads) are queued only under 'image no larger than the window'",
-		"C20.d render: every last placement is deleted on refresh, deleted unless matched otherwise; the last list is emptied on refresh before the new-placement loop; every new placement not matched in the last list is positioned and written; deletes precede writes; last := next afterwards",
+		"C20.d render: every last placement is deleted on refresh, deleted unless matched otherwise (by one loop or by a loop per case, which no path to the write loop bypasses while the last list is not empty); the last list is emptied on refresh before the new-placement loop; every new placement not matched in the last list is positioned and written; deletes precede writes; last := next afterwards",
 		"C20.e the alpha threshold of every block renderer is the constant transparentEnough (interval of the alpha value on each arm)",
 		"C20.f resizeImage returns the source unchanged only if it fits, and scales only if it does not fit",
 		"C20.g cell counts round up: columns/lines in resizeImage, CellSize of all four image kinds = ceil(pixel extent / cell pixel extent) of the image resizeImage returned (not of a padded or rounded-up quantity), with the cell geometry that was passed to resizeImage and the box passed through unchanged",
 		"C20.h pixel extents of the source are extents (Dx/Dy or Max-Min), not Max coordinates",
-		"C20.i block images: cell i reads pixels (i mod W, 2*(i div W)) and the one below from the resized image; Draw puts cell i at (i mod W, i div W); each half of a half-block cell shows its own pixel's colour if opaque and the default colour if transparent; a cell that a path through the loop does not store must be the zero value of a slice made in the same Resize",
+		"C20.i block images: cell i reads pixels (i mod W, 2*(i div W)) and the one below from the resized image; Draw puts cell i at (i mod W, i div W) - in any loop structure: the element drawn at (column, row) has index row*W + column with W the image's own width, as a polynomial identity over the loop variables; each half of a half-block cell shows its own pixel's colour if opaque and the default colour if transparent; a cell that a path through the loop does not store must be the zero value of a slice made in the same Resize",
 		"C20.j colour plumbing: toRGB and averageColor keep channels apart and in order; averageColor averages all its inputs",
 		"C20.k every placement queued by a Draw sets all fields: position from win.Origin(), identity from the image, functions non-nil",
 		"C20.m kitty put/delete commands address the same image id and placement id, delete keeps the image data",
@@ -2362,6 +2375,7 @@ func c20BlockDraw(c *Ctx, k *c20Kind) {
 	for _, h := range sets {
 		at[h.Loc] = h.Node.(*ast.CallExpr)
 	}
+	general := false
 	x.run(func(st *c20State, l Loc, n ast.Node) bool {
 		call, ok := at[l]
 		if !ok || len(call.Args) != 3 {
@@ -2380,17 +2394,19 @@ func c20BlockDraw(c *Ctx, k *c20Kind) {
 				}
 			}
 		}
+		// any other loop structure (nested loops over a rectangle, a row slice per line, a loop over a
+		// re-sliced list) is judged by the general form of the rule: element index == row*W + column (c20rect.go)
 		if iv == nil || elem == nil || iv.rs != elem.rs {
-			agg.und("C20.i", key, p, "SetCell is not inside a range loop binding index and element")
+			general = true
 			return true
 		}
 		rse, _ := unparen(iv.rs.X).(*ast.SelectorExpr)
 		if rse == nil || info.Selections[rse] == nil || rootObj(info, rse) != recv {
-			agg.und("C20.i", key, p, "the loop does not range over a field of the receiver")
+			general = true
 			return true
 		}
 		if _, isSlice := info.Selections[rse].Obj().Type().Underlying().(*types.Slice); !isSlice {
-			agg.und("C20.i", key, p, "the loop does not range over a slice field")
+			general = true
 			return true
 		}
 		isW := func(v *c20Val) bool {
@@ -2438,6 +2454,10 @@ func c20BlockDraw(c *Ctx, k *c20Kind) {
 		}
 		return true
 	}, nil)
+	if general {
+		c20BlockDrawRect(c, k, key)
+		return
+	}
 	agg.flush()
 }
 
@@ -2910,18 +2930,17 @@ func c20Render(c *Ctx) {
 			return ok && info.Uses[id] == v
 		}
 	}
-	var L1, L2 *c20Loop
+	// L1t / L1f: the loop that deletes last placements on a refresh / without a refresh (one and the same loop
+	// in today's tree; a maintainer may give the refresh case a loop of its own, see below)
+	var L1t, L1f, L2 *c20Loop
+	var D []*c20Loop
 	for _, l := range loops {
 		if l.val == nil {
 			continue
 		}
 		switch {
 		case recvField(l.rs.X, "graphicsLast") && containsNode(l.rs.Body, callOnVar(pfield["deleteFn"], l.val)):
-			if L1 != nil {
-				c.undecided("C20.d", fname+"/delete loop", l.rs.Pos(), "more than one loop deletes last placements")
-				return
-			}
-			L1 = l
+			D = append(D, l)
 		case recvField(l.rs.X, "graphicsNext") && containsNode(l.rs.Body, callOnVar(pfield["writeTo"], l.val)):
 			if L2 != nil {
 				c.undecided("C20.d", fname+"/write loop", l.rs.Pos(), "more than one loop writes new placements")
@@ -2930,7 +2949,7 @@ func c20Render(c *Ctx) {
 			L2 = l
 		}
 	}
-	if L1 == nil || L2 == nil {
+	if len(D) == 0 || L2 == nil {
 		c.undecided("C20.d", fname+"/loops", pos, "expected a range over %s.graphicsLast calling deleteFn and a range over %s.graphicsNext calling writeTo", recv.Name(), recv.Name())
 		return
 	}
@@ -2938,7 +2957,8 @@ func c20Render(c *Ctx) {
 	// iteration read (the loop variable, refresh, the two lists) is assigned in it: there a local defined once can
 	// be replaced by its defining expression wherever it is read
 	stableBody := map[*c20Loop]bool{}
-	for _, l := range []*c20Loop{L1, L2} {
+	placementLoops := append(append([]*c20Loop(nil), D...), L2)
+	for _, l := range placementLoops {
 		l := l
 		stableBody[l] = !c20AnyNode(l.rs.Body, func(n ast.Node) bool {
 			var lhs []ast.Expr
@@ -2969,7 +2989,7 @@ func c20Render(c *Ctx) {
 		})
 	}
 	namedScope := func(p token.Pos) ast.Node {
-		for _, l := range []*c20Loop{L1, L2} {
+		for _, l := range placementLoops {
 			if stableBody[l] && p >= l.rs.Body.Pos() && p <= l.rs.Body.End() {
 				return l.rs.Body
 			}
@@ -3140,34 +3160,6 @@ func c20Render(c *Ctx) {
 	check := func(l *c20Loop, cond bool, key string, p token.Pos, okReason, badReason string) {
 		c.check(cond, "C20.d", key, p, okReason, badReason)
 	}
-	del1 := callOnVar(pfield["deleteFn"], L1.val)
-	wr2 := callOnVar(pfield["writeTo"], L2.val)
-	match1 := isMatchEdge(L1.val, "graphicsNext")
-	match2 := isMatchEdge(L2.val, "graphicsLast")
-	p1, p2 := L1.rs.Pos(), L2.rs.Pos()
-
-	// d1: dropped placements are deleted
-	check(L1, !c20Reach(g, L1.body(), 0, del1, not(match1), endOf(L1), nil, nil), fname+"/a last placement is deleted unless it is matched in graphicsNext", p1,
-		"every iteration either calls deleteFn or passes samePlacement(last, next) == true",
-		"an iteration of the delete loop can end without deleteFn and without a match among graphicsNext: a dropped placement stays on screen")
-	// d2: on refresh every last placement is deleted
-	check(L1, !c20Reach(g, L1.body(), 0, del1, withRefresh(true), endOf(L1), nil, nil), fname+"/on refresh every last placement is deleted", p1,
-		"with refresh set every iteration calls deleteFn",
-		"with refresh set an iteration of the delete loop can end without deleteFn: the placement survives the full redraw")
-	// d2b: a matched placement is not deleted (without refresh)
-	matchedDeleted := false
-	for _, b := range g.Blocks {
-		for si := range b.Succs {
-			if len(b.Succs) == 2 && b.Succs[0] != b.Succs[1] && match1(b, si) {
-				if b.Succs[si] != L1.head && c20Reach(g, b.Succs[si], 0, nil, withRefresh(false), nil, del1, map[*cfg.Block]bool{L1.head: true, L1.done(): true}) {
-					matchedDeleted = true
-				}
-			}
-		}
-	}
-	check(L1, !matchedDeleted, fname+"/a matched last placement is kept", p1, "the match edge leaves the iteration without deleteFn",
-		"after samePlacement(last, next) == true the iteration still reaches deleteFn: an unchanged placement is deleted and, being matched, never rewritten")
-	// d3: graphicsLast emptied on refresh between the loops (or the write loop does not skip on refresh)
 	isEmptying := func(n ast.Node) bool {
 		as, ok := n.(*ast.AssignStmt)
 		if !ok || len(as.Lhs) != 1 || len(as.Rhs) != 1 || !recvField(as.Lhs[0], "graphicsLast") {
@@ -3191,13 +3183,110 @@ func c20Render(c *Ctx) {
 		}
 		return false
 	}
+	// which loop deletes in which case. One loop: both. Several loops (the refresh case written as a loop of
+	// its own: `if refresh { for last { delete }; last = {} }` followed or accompanied by the loop that deletes
+	// the unmatched ones): the loop of a case is the one that can be reached from the entry in that case with
+	// graphicsLast still filled (after the list has been emptied a loop over it does nothing).
+	L1t, L1f = D[0], D[0]
+	if len(D) > 1 {
+		pick := func(refresh bool) []*c20Loop {
+			var out []*c20Loop
+			for _, l := range D {
+				l := l
+				if c20Reach(g, g.Blocks[0], 0, isEmptying, withRefresh(refresh), func(b *cfg.Block) bool { return b == l.head }, nil, nil) {
+					out = append(out, l)
+				}
+			}
+			return out
+		}
+		dt, df := pick(true), pick(false)
+		if len(dt) != 1 || len(df) != 1 {
+			c.undecided("C20.d", fname+"/delete loop", D[1].rs.Pos(), "more than one loop deletes last placements in the same case (%d with refresh, %d without)", len(dt), len(df))
+			return
+		}
+		L1t, L1f = dt[0], df[0]
+	}
+	delT := callOnVar(pfield["deleteFn"], L1t.val)
+	delF := callOnVar(pfield["deleteFn"], L1f.val)
+	delAny := func(n ast.Node) bool {
+		for _, l := range D {
+			if callOnVar(pfield["deleteFn"], l.val)(n) {
+				return true
+			}
+		}
+		return false
+	}
+	wr2 := callOnVar(pfield["writeTo"], L2.val)
+	match1 := isMatchEdge(L1f.val, "graphicsNext")
+	match2 := isMatchEdge(L2.val, "graphicsLast")
+	p1, p2 := L1f.rs.Pos(), L2.rs.Pos()
+	// d0: the loop of a case is not bypassed in that case: every path from the entry to the write loop passes it,
+	// unless the path needs graphicsLast to be empty (a guard `len(last) > 0` around the loop is harmless)
+	notEmptyGuard := func(want bool) func(*cfg.Block, int) bool {
+		wr := withRefresh(want)
+		return func(b *cfg.Block, si int) bool {
+			if !wr(b, si) {
+				return false
+			}
+			alts := edgeAlts(b, si)
+			if alts == nil {
+				return true
+			}
+			for _, alt := range alts {
+				ok := true
+				for _, l := range alt {
+					if c20NeedsEmpty(info, l, func(e ast.Expr) bool { return recvField(e, "graphicsLast") }) {
+						ok = false
+					}
+				}
+				if ok {
+					return true
+				}
+			}
+			return false
+		}
+	}
+	for _, cs := range []struct {
+		l       *c20Loop
+		refresh bool
+		name    string
+	}{{L1t, true, "on refresh"}, {L1f, false, "without refresh"}} {
+		l := cs.l
+		bypass := c20Reach(g, g.Blocks[0], 0, nil, notEmptyGuard(cs.refresh), func(b *cfg.Block) bool { return b == L2.head }, nil, map[*cfg.Block]bool{l.head: true})
+		c.check(!bypass, "C20.d", fname+"/"+cs.name+" the delete loop is passed before the write loop", l.rs.Pos(),
+			"every path from the entry to the write loop passes the loop over graphicsLast (or needs the list to be empty)",
+			"the write loop can be reached "+cs.name+" without passing the loop that deletes the last placements: they are not deleted before the new placements are written (they stay on the screen, or a deletion that comes later removes what has just been written)")
+	}
+
+	// d1: dropped placements are deleted
+	check(L1f, !c20Reach(g, L1f.body(), 0, delF, not(match1), endOf(L1f), nil, nil), fname+"/a last placement is deleted unless it is matched in graphicsNext", p1,
+		"every iteration either calls deleteFn or passes samePlacement(last, next) == true",
+		"an iteration of the delete loop can end without deleteFn and without a match among graphicsNext: a dropped placement stays on screen")
+	// d2: on refresh every last placement is deleted
+	check(L1t, !c20Reach(g, L1t.body(), 0, delT, withRefresh(true), endOf(L1t), nil, nil), fname+"/on refresh every last placement is deleted", L1t.rs.Pos(),
+		"with refresh set every iteration calls deleteFn",
+		"with refresh set an iteration of the delete loop can end without deleteFn: the placement survives the full redraw")
+	// d2b: a matched placement is not deleted (without refresh)
+	matchedDeleted := false
+	for _, b := range g.Blocks {
+		for si := range b.Succs {
+			if len(b.Succs) == 2 && b.Succs[0] != b.Succs[1] && match1(b, si) {
+				if b.Succs[si] != L1f.head && c20Reach(g, b.Succs[si], 0, nil, withRefresh(false), nil, delF, map[*cfg.Block]bool{L1f.head: true, L1f.done(): true}) {
+					matchedDeleted = true
+				}
+			}
+		}
+	}
+	check(L1f, !matchedDeleted, fname+"/a matched last placement is kept", p1, "the match edge leaves the iteration without deleteFn",
+		"after samePlacement(last, next) == true the iteration still reaches deleteFn: an unchanged placement is deleted and, being matched, never rewritten")
+	// d3: graphicsLast emptied on refresh between the loops (or the write loop does not skip on refresh)
 	isL2 := func(b *cfg.Block) bool { return b == L2.head }
-	notEmptied := c20Reach(g, L1.done(), 0, isEmptying, withRefresh(true), isL2, nil, nil)
+	notEmptied := c20Reach(g, L1t.done(), 0, isEmptying, withRefresh(true), isL2, nil, nil)
 	skipsOnRefresh := c20Reach(g, L2.body(), 0, wr2, withRefresh(true), endOf(L2), nil, nil)
 	c.check(!notEmptied || !skipsOnRefresh, "C20.d", fname+"/on refresh every next placement is written again", p2,
 		"graphicsLast is emptied under refresh before the write loop (or the loop cannot skip under refresh)",
 		"with refresh set the write loop is reached with graphicsLast still filled and may skip matched placements: they were just deleted and are not transmitted again")
-	emptiedAlways := c20Reach(g, L1.done(), 0, nil, withRefresh(false), nil, isEmptying, map[*cfg.Block]bool{L2.head: true})
+	emptiedAlways := c20Reach(g, L1f.done(), 0, nil, withRefresh(false), nil, isEmptying, map[*cfg.Block]bool{L2.head: true})
 	c.check(!emptiedAlways, "C20.d", fname+"/graphicsLast is emptied only on refresh", p2, "the emptying assignment needs refresh",
 		"graphicsLast is emptied before the write loop without refresh: every placement is retransmitted every frame")
 	// d4: new or changed placements are written; matched ones are not
@@ -3252,12 +3341,12 @@ func c20Render(c *Ctx) {
 	// d6: deletes precede writes
 	writeThenDelete := false
 	for _, h := range g.Find(wr2) {
-		if c20Reach(g, h.B, h.Idx+1, nil, nil, nil, del1, nil) {
+		if c20Reach(g, h.B, h.Idx+1, nil, nil, nil, delAny, nil) {
 			writeThenDelete = true
 		}
 	}
 	c.check(!writeThenDelete, "C20.d", fname+"/all deletes precede all writes", p2, "no deleteFn is reachable after a writeTo",
-		"a deleteFn call is reachable after a writeTo call: on refresh a placement that was just re-transmitted is deleted again")
+		"a deleteFn call is reachable after a writeTo call: a placement that was just (re-)transmitted is deleted again (on refresh all of them; otherwise one that changed at the same origin, whose delete addresses the same image id and placement id)")
 	// d7: last := next afterwards, and only afterwards
 	isSave := func(n ast.Node) bool {
 		as, ok := n.(*ast.AssignStmt)
@@ -3268,7 +3357,7 @@ func c20Render(c *Ctx) {
 		"a path from the write loop to the exit does not save graphicsNext as graphicsLast: the next frame diffs against a stale list")
 	early := false
 	for _, h := range g.Find(isSave) {
-		if c20Reach(g, h.B, h.Idx+1, nil, nil, func(b *cfg.Block) bool { return b == L2.head || b == L1.head }, nil, nil) {
+		if c20Reach(g, h.B, h.Idx+1, nil, nil, func(b *cfg.Block) bool { return b == L2.head || b == L1t.head || b == L1f.head }, nil, nil) {
 			early = true
 		}
 	}
@@ -3926,4 +4015,84 @@ func c20ReachF(f *c20Flags, g *FG, b *cfg.Block, idx int, avoid func(ast.Node) b
 		}
 	}
 	return false
+}
+
+// c20NeedsEmpty: the leaf (with its polarity) can only hold when the list is empty: a comparison of len(list)
+// with a constant that is false for every length >= 1, or list == nil.
+func c20NeedsEmpty(info *types.Info, l c20Leaf, isList func(ast.Expr) bool) bool {
+	if l.e == nil {
+		return false
+	}
+	be, ok := unparen(l.e).(*ast.BinaryExpr)
+	if !ok {
+		return false
+	}
+	lenOf := func(e ast.Expr) bool {
+		call, ok := unparen(e).(*ast.CallExpr)
+		if !ok || len(call.Args) != 1 {
+			return false
+		}
+		id, ok := call.Fun.(*ast.Ident)
+		if !ok {
+			return false
+		}
+		b, ok := info.Uses[id].(*types.Builtin)
+		return ok && b.Name() == "len" && isList(call.Args[0])
+	}
+	op := be.Op
+	var k int64
+	switch {
+	case lenOf(be.X):
+		v, ok := constInt(info, be.Y)
+		if !ok {
+			return false
+		}
+		k = v
+	case lenOf(be.Y):
+		v, ok := constInt(info, be.X)
+		if !ok {
+			return false
+		}
+		k = v
+		switch op {
+		case token.LSS:
+			op = token.GTR
+		case token.GTR:
+			op = token.LSS
+		case token.LEQ:
+			op = token.GEQ
+		case token.GEQ:
+			op = token.LEQ
+		}
+	case isList(be.X) && isNilExpr(info, unparen(be.Y)), isList(be.Y) && isNilExpr(info, unparen(be.X)):
+		return (be.Op == token.EQL) == l.pol
+	default:
+		return false
+	}
+	if !l.pol {
+		op = negOp(op)
+	}
+	for _, n := range []int64{1, 2, 3, 1 << 20} {
+		var holds bool
+		switch op {
+		case token.EQL:
+			holds = n == k
+		case token.NEQ:
+			holds = n != k
+		case token.LSS:
+			holds = n < k
+		case token.LEQ:
+			holds = n <= k
+		case token.GTR:
+			holds = n > k
+		case token.GEQ:
+			holds = n >= k
+		default:
+			return false
+		}
+		if holds {
+			return false
+		}
+	}
+	return true
 }
